@@ -126,13 +126,19 @@ pub struct D6 {
     dry__run: bool,
     _quiet: bool,
     http2_port: Option<u32>,
+    V: bool,
+    N: Option<u32>,
 }
 
+#[allow(non_snake_case)]
 pub fn d6_manual() -> OptionParser<D6> {
     let dry__run = long("dry--run").switch();
     let _quiet = long("-quiet").switch();
     let http2_port = long("http2-port").argument::<u32>("ARG").optional();
-    construct!(D6 { dry__run, _quiet, http2_port }).to_options()
+    // single-character names become short names - lower-cased like every derived name
+    let V = short('v').switch();
+    let N = short('n').argument::<u32>("ARG").optional();
+    construct!(D6 { dry__run, _quiet, http2_port, V, N }).to_options()
 }
 
 // ---- variant names with acronyms and digits: every capital starts a new word ---------------------------
